@@ -1298,8 +1298,10 @@ impl<'a> CompilerState<'a> {
                                 var_type = match var_type {
                                     VariableType::Char => VariableType::CharPtr,
                                     _ => {
-                                        return Err(self
-                                            .syntax_error("Type too complex not supported", start))
+                                        return Err(self.syntax_error(
+                                            "Type too complex not supported",
+                                            p.as_span().start(),
+                                        ))
                                     }
                                 }
                             }
@@ -1821,7 +1823,7 @@ impl<'a> CompilerState<'a> {
                                             _ => {
                                                 return Err(self.syntax_error(
                                                     "Type too complex not supported",
-                                                    start,
+                                                    p.as_span().start(),
                                                 ))
                                             }
                                         }
@@ -2154,7 +2156,7 @@ impl<'a> CompilerState<'a> {
                                         _ => {
                                             return Err(self.syntax_error(
                                                 "Type too complex not supported",
-                                                start,
+                                                pair.as_span().start(),
                                             ))
                                         }
                                     }
